@@ -7,7 +7,9 @@ from checks import net_common as NC
 
 PID = "C11"
 RULE = ("Hypothesis-generated clean motif networks (16..40 vertices quick / ..120 thorough, 1..3 topologies out of "
-        "cliques 2..4 and cycles 4..5, edge-disjoint motifs on distinct vertices) x full-support symmetric positive "
+        "cliques 2..4, cycles 4..5 and a two-name 4-clique ('split4': strong/weak paths, i.e. a multi-topology motif), "
+        "edge-disjoint motifs on distinct vertices, vertices registered in sorted or in motif-list order; optionally an "
+        "earlier rewire() on the same object or a network replaced through the setter) x full-support symmetric positive "
         "targets x CONVERGENCE_LIMIT in {0,1,2,3,5,10,25,60} or omitted (default; networks <= 40 edges) x SEARCH_LIMIT "
         "in {1,2,5,10,20,30} or omitted x RNG seeded or scripted, under an RNG-draw budget of 4000+500 per requested swap (max 200000). The working copy is a "
         "journalling nx.Graph subclass, so every accepted swap is observed: clauses (A) input untouched, (B) vertices / "
@@ -138,6 +140,14 @@ def check(case):
                 raise Violation("motif-shape", f"returned graph: {msg}")
             swaps = 1 if final != R.before[1] else 0
             classes.add("no_journal")
+    if any(t["kind"] == "split4" for t in case["net"]["topos"]):
+        classes.add("multi_topology_motifs")
+    if case["net"].get("node_order") == "by_motifs":
+        classes.add("vertices_in_motif_list_order")
+    if case.get("earlier_rewire"):
+        classes.add("second_rewire_on_object")
+    if case.get("constructed_for_shift"):
+        classes.add("network_replaced_through_setter")
     if case["L"] is None:
         classes.add("default_convergence_limit")
     if case["search"] is None:
